@@ -35,14 +35,14 @@ def plan(ctx):
         if ctx.tier == "quick" and n > 11:
             singles = [s for s in allsets if len(s) <= 1]
             rest = [s for s in allsets if len(s) > 1]
-            pick = singles + rnd.sample(rest, min(len(rest), 36))
+            pick = singles + rnd.sample(rest, min(len(rest), 16))
             exhaustive = False
         else:
             pick = allsets
         for i, ch in enumerate(chunks(pick, 16)):
             obs.append(l1_ob(k, m, hd, ch, b=4, idx=i))
     # payload lengths / build flavours (chunk + tail paths of xor_bufs_and_store inside the decoders)
-    for (k, m, hd) in [(3, 3, 3), (10, 5, 3), (6, 6, 4)] + ([(12, 6, 4), (15, 6, 3), (20, 6, 4), (10, 5, 4)] if ctx.tier == "thorough" else []):
+    for (k, m, hd) in [(3, 3, 3), (6, 6, 4)] + ([(10, 5, 3), (12, 6, 4), (15, 6, 3), (20, 6, 4), (10, 5, 4)] if ctx.tier == "thorough" else []):
         n = k + m
         s3 = [s for s in esets(n, hd - 1, hd - 1)]
         pick = [s3[0], s3[len(s3) // 2], s3[-1], (0,), (n - 1,)]
@@ -50,7 +50,8 @@ def plan(ctx):
             for sse in (False, True):
                 obs.append(l1_ob(k, m, hd, pick, b=b, sse=sse, tag="len", idx=0))
     # symbolic erasure list on the smallest table (one query = all sets)
-    obs.append(l1_ob(3, 3, 3, [], sym=True, tag="symset", timeout=900, mem=8))
+    if ctx.tier == "thorough":
+        obs.append(l1_ob(3, 3, 3, [], sym=True, tag="symset", timeout=3000, mem=12))
     for sse in (False, True):
         obs.append(Ob(id=f"xorbufs-{'sse2' if sse else 'port'}", harness="xor_l0.c", defs=dict(MODE=2, NMAX=48, K=3, M=3, HD=3), units=XU_SSE if sse else XU,
                       unwind=70, timeout=600, mem_gb=4, sample={"symbolic": "length 0..48, 2x64 buffer bytes", "flavour": "INTEL_SSE2" if sse else "portable"},
